@@ -543,9 +543,14 @@ func main() {
 				keys = append(keys, scenKey{"boundary-prune-graceful", f.Seed, dstNew, dstNew, "memory"})
 			}
 		}
-		// the four first calls after the kill; backends alternate with the seed (both in thorough)
+		// the four first calls after the kill (snap, restart: the init error is reported by the call
+		// itself; revert, store: healed by resetFilterOnError). Quick: one of each kind per seed,
+		// backends alternate with the seed; thorough: all four on both backends.
 		for v := uint64(0); v < 4; v++ {
-			dstNew := (f.Seed+v)%2 == 0
+			if !f.Thorough() && v%2 != f.Seed%2 {
+				continue
+			}
+			dstNew := (f.Seed/2+v/2)%2 == 0
 			keys = append(keys, scenKey{"boundary-init-fault", f.Seed*4 + v, dstNew, dstNew, "memory"})
 			if f.Thorough() {
 				keys = append(keys, scenKey{"boundary-init-fault", f.Seed*4 + v, !dstNew, !dstNew, "memory"})
@@ -556,7 +561,9 @@ func main() {
 		keys = append(keys, scenKey{"rejects", f.Seed*1000 + 900, f.Seed%2 == 1, f.Seed%2 == 0, "pebble"})
 		for _, dstNew := range []bool{false, true} {
 			keys = append(keys, scenKey{"boundary-directed-killed", f.Seed, dstNew, dstNew, "memory"})
-			keys = append(keys, scenKey{"boundary-directed-graceful", f.Seed, dstNew, dstNew, "memory"})
+			if f.Thorough() || dstNew == (f.Seed%2 == 1) {
+				keys = append(keys, scenKey{"boundary-directed-graceful", f.Seed, dstNew, dstNew, "memory"})
+			}
 			for i := 0; i < f.Scale(1, 4); i++ {
 				keys = append(keys, scenKey{"boundary-random-killed", f.Seed*1000 + uint64(i), dstNew, dstNew, "memory"})
 				if f.Thorough() {
